@@ -262,13 +262,27 @@ pub fn run10(a: &Args) -> Batch {
                 continue;
             }
         };
+        // the model's own windows with the tilt and azimuth of their wall (ids that are unique on both sides)
+        let win_geo = {
+            let mut v = vec![];
+            for w in &m.windows {
+                if m.windows.iter().filter(|x| x.id == w.id).count() != 1 {
+                    continue;
+                }
+                let ws: Vec<_> = m.walls.iter().filter(|x| x.id == w.wall).collect();
+                if ws.len() == 1 {
+                    v.push(format!("({}, {}, {})", coq::id(w.id), coq::q(ws[0].geometry.tilt), coq::q(ws[0].geometry.azimuth)));
+                }
+            }
+            format!("[{}]", v.join("; "))
+        };
         *stats.entry(format!("zone_{}", m.meta.climate)).or_default() += 1;
         if nwin == 0 {
             *stats.entry("no_envelope_window".into()).or_default() += 1;
         }
         cases.push(Case {
             post: String::new(),
-            term: format!("(mkC10 {} {}\n {} {} {})", coq::n(zone), props_term, impl_term, coq::b(finite), coq::b(roundtrip)),
+            term: format!("(mkC10 {} {}\n {} {} {} {})", coq::n(zone), props_term, impl_term, win_geo, coq::b(finite), coq::b(roundtrip)),
             json: json!({"origin": origin, "zone": m.meta.climate.to_string(), "model": serde_json::to_value(&m).unwrap(), "q_soljul_data": dj,
                          "classes": if nwin == 0 { vec!["no_envelope_window"] } else { vec![] }}),
             nontrivial: nwin >= 1,
